@@ -44,7 +44,7 @@ def generate(seed, tier):
         cs = K.harness_seed(seed, ID, i)
         rng = random.Random(cs)
         profile = rng.choice(["nested", "nested", "multiassign", "multiassign", "guarded", "guarded", "discrete", "mixed",
-                              "continuous", "linear", "symbolic", "delay", "counter", "abstract"])
+                              "continuous", "linear", "symbolic", "delay", "counter", "abstract", "abstract", "abstract"])
         prog, feats, meta = G.generate(cs, profile)
         params, inits = G.instantiate_params(rng, meta, prog)
         cont = bool(meta["draws"])
@@ -52,6 +52,20 @@ def generate(seed, tier):
         cases.append({"id": f"gen-{cs}", "text": program_str(prog), "ast": prog.to_json(), "params": K.frac_enc(params),
                       "inits": K.frac_enc(inits), "N": (3 if cont else 5) if tier == "quick" else (4 if cont else 6),
                       "settings": cfg, "features": feats + ["cfg:" + ("+".join(sorted(cfg)) or "default")]})
+    # abstraction preconditions: programs whose abstracted event depends on the finite part of the same guard (must be
+    # refused or handled exactly) - a fixed number per run, whatever the profile lottery produced
+    want, j = (4 if tier == "quick" else 40), 0
+    have = sum(1 for c in cases if "abstract-derived-value-dependent-on-finite-conjunct" in c["features"])
+    while have < want and j < 4000:
+        cs = K.harness_seed(seed, ID + "-dep", j)
+        j += 1
+        prog, feats, meta = G.generate(cs, "abstract")
+        if "abstract-derived-value-dependent-on-finite-conjunct" not in feats:
+            continue
+        have += 1
+        params, inits = G.instantiate_params(random.Random(cs), meta, prog)
+        cases.append({"id": f"gen-{cs}", "text": program_str(prog), "ast": prog.to_json(), "params": K.frac_enc(params),
+                      "inits": K.frac_enc(inits), "N": 3, "settings": {}, "features": feats + ["cfg:default"]})
     for c in CORPUS.cases(seed, tier, 25 if tier == "quick" else 300, ID, N=4):
         c["settings"] = {}
         cases.append(c)
@@ -205,7 +219,13 @@ def run_case(case, tier):
                                           "detail": f"program after {st.name} is ill-defined at a reachable state ({mode}): {e}"})
                 first_bad = first_bad or st.name
                 break
-            bad = compare_laws(seng, sd, eng, dd, src_vars, common, discrete, res)
+            try:
+                bad = compare_laws(seng, sd, eng, dd, src_vars, common, discrete, res)
+            except (CapExceeded, Unsupported) as e:
+                skipped += 1
+                key = "stage-moments-" + type(e).__name__
+                res["extra"][key] = res["extra"].get(key, 0) + 1
+                break
             abstracted_vars = set()
             if bad and abst:
                 # the abstraction changes the joint law with the variables of the abstracted condition by design (known
@@ -223,7 +243,10 @@ def run_case(case, tier):
                             abstracted_vars.add(a[1])
                             changed = True
                 reduced = [v for v in common if v not in abstracted_vars]
-                bad2 = compare_laws(seng, sd, eng, dd, src_vars, reduced, discrete, res) if reduced else None
+                try:
+                    bad2 = compare_laws(seng, sd, eng, dd, src_vars, reduced, discrete, res) if reduced else None
+                except (CapExceeded, Unsupported):
+                    bad2 = None
                 if bad2:
                     bad = bad2
                     abstracted_vars = None  # not explained by the abstraction
